@@ -49,7 +49,11 @@ RULE = (
     "touched live files, or build() of a directory of three > 1 MiB files, with a wrapper around "
     "build.hash_file that holds one pooled call back until another finished, so the unordered pool "
     "completes out of submission order; returned hashes and all later lookups judged), "
-    "mutate_during_batch (_get_hashes / build(dir) / build_entries through a harness-owned "
+    "q_save_many (State.save_many of honest hashes where one or two items, not the last, vanished "
+    "before the recording or never existed, with or without caller info; all others looked up), "
+    "q_odb_add_verify (LocalHashFileDB.add(verify=True) with earlier sources mismatching their oid, "
+    "then lookups of the remaining store objects), "
+    "mutate_during_batch (also: delete the already-read file; _get_hashes / build(dir) / build_entries through a harness-owned "
     "LocalFileSystem subclass that rewrites an already-read file of the batch when a later one is "
     "opened; only later lookups of that file are judged), "
     "planted entries (version HASH_VERSION+k, legacy entries without version), the same "
@@ -60,7 +64,7 @@ RULE = (
     "non-local filesystems are misses. Non-trivial = a query answered from the cache for a path "
     "mutated earlier in the history, or a batch >= 1000, or an update() after a mutation, or a "
     "mutation that fired during a batch call, or >= 2 files with distinct contents hashed in the "
-    "pool; distinct "
+    "pool, or a recorded batch with a vanished item; distinct "
     "= SHA-1 of the trace JSON."
 )
 ASSUMPTIONS = [
@@ -811,7 +815,9 @@ class C13Machine(TraceMachine):
 
     @rule(route=st.sampled_from(["get_hashes", "build_dir", "build_entries"]), algo=algo_s,
           stir=st.sampled_from([True, True, False]), skip=st.sampled_from([0, 0, 1]),
-          pick=st.integers(0, 4), how=st.sampled_from(["write_in_place", "atomic_replace"]),
+          pick=st.integers(0, 4),
+          how=st.sampled_from(["write_in_place", "write_in_place", "atomic_replace", "atomic_replace",
+                               "delete"]),
           content=content_s, clock=clock_s,
           probe=st.sampled_from(["get", "get+info", "many", "many+infos", "hash_file",
                                  "hash_file+info", "get_hashes", "build_file", "build_entries",
@@ -836,8 +842,16 @@ class C13Machine(TraceMachine):
                 self.after_mutation(q, before, self.clock(q, ["d", 1 + i], prev),
                                     content_changed=False)
 
+        slot_files = {self.p(s_) for s_ in SLOTS}
+        deleted = []
+
         def action(victim):
-            if how == "write_in_place" or os.path.islink(victim):
+            if how == "delete" and victim in slot_files:  # link targets are never deleted
+                os.unlink(victim)
+                self.after_mutation(victim, None, None)
+                self.labels.add("mut:delete")
+                deleted.append(victim)
+            elif how != "atomic_replace" or os.path.islink(victim):
                 self.do_write_in_place(victim, content, clock)
             else:
                 self.do_atomic_replace(victim, content, clock)
@@ -871,9 +885,109 @@ class C13Machine(TraceMachine):
         if wfs.victim is None:
             self.labels.add("mid-batch:writer-not-fired")
             return
-        self.labels.add(f"mid-batch:{route}:{how}")
         self.nt.add("mutation-during-batch")
+        if deleted:  # the file is gone: no lookup of it may hit, every other file is judged
+            self.labels.add(f"mid-batch:{route}:delete")
+            self.r_get(wfs.victim, False)
+            self.lookup_all(self.live_files(), ALGOS[palgo], "all" if probe and "+" in probe else "none")
+            return
+        self.labels.add(f"mid-batch:{route}:" + ("write_in_place" if how == "delete" else how))
         self.probe(wfs.victim, probe, palgo)
+
+    def lookup_all(self, paths, name, infos):
+        """Every way of asking the state about these paths (batch, single, through hash_file)."""
+        self.r_get_many(list(paths), infos)
+        for q in paths:
+            if os.path.isfile(q):
+                self.r_hash_file(q, name, infos == "all")
+
+    @rule(rot=st.integers(0, 7), gone=st.lists(st.integers(0, 6), min_size=1, max_size=2),
+          never=st.booleans(), with_info=st.lists(st.booleans(), min_size=8, max_size=8),
+          algo=algo_s, infos=st.sampled_from(["none", "all"]))
+    @traced
+    def q_save_many(self, rot, gone, never, with_info, algo, infos):
+        """An honest caller records a batch of hashes it computed; one or two files of the batch (not
+        the last) vanished before the recording, or never existed. The others must be served right."""
+        from dvc_data.hashfile.hash_info import HashInfo
+
+        name = ALGOS[algo]
+        live = self.live_files()
+        if len(live) < 2:
+            return
+        r = rot % len(live)
+        paths = live[r:] + live[:r]
+        slot_files = {self.p(s_) for s_ in SLOTS}
+        items, victims = [], []
+        if never:
+            for j, g in enumerate(sorted({g % len(paths) for g in gone})):
+                paths.insert(g, self.p(NEVER[j]))   # g < len(paths): never the last position
+                victims.append(self.p(NEVER[j]))
+        else:
+            cand = [q for q in paths[:-1] if q in slot_files]
+            if not cand:
+                return
+            victims = sorted({cand[g % len(cand)] for g in gone})
+        for i, q in enumerate(paths):
+            if q in victims and never:
+                items.append((q, HashInfo(name, ref.ref_hash(b"never:" + q.encode(), name)), None))
+                continue
+            hi = HashInfo(name, ref.ref_hash(ref.read(q), name))       # hashed while it existed
+            info = None if q in victims or not with_info[i % len(with_info)] else self.fs.info(q)
+            items.append((q, hi, info))
+        if not never:
+            for q in victims:
+                os.unlink(q)
+                self.after_mutation(q, None, None)
+                self.labels.add("mut:delete")
+        self.cnt["queries"] += 1
+        self.state.save_many(items, self.fs)
+        self.labels.add("q:State.save_many:" + ("never-existed" if never else "vanished")
+                        + f":{len(victims)}")
+        self.nt.add("save_many-with-vanished-item")
+        for q in victims:
+            self.r_get(q, False)
+        self.lookup_all([q for q in paths if q not in victims], name, infos)
+
+    @rule(rot=st.integers(0, 7), bad=st.lists(st.integers(0, 6), min_size=1, max_size=2), algo=algo_s)
+    @traced
+    def q_odb_add_verify(self, rot, bad, algo):
+        """odb.add(paths, fs, oids, verify=True) on a LocalHashFileDB carrying the state, where one or
+        two earlier sources do not match their oid (they are dropped by the verification); the
+        state's entries for the remaining objects must be the digests of those objects."""
+        name = ALGOS[algo]
+        by_content = {}
+        for q in self.live_files():
+            by_content.setdefault(ref.read(q), q)
+        srcs = sorted(by_content.values())
+        if len(srcs) < 2:
+            return
+        r = rot % len(srcs)
+        srcs = srcs[r:] + srcs[:r]
+        wrong = {b % (len(srcs) - 1) for b in bad}           # never the last one
+        oids = []
+        for i, q in enumerate(srcs):
+            data = ref.read(q)
+            oids.append(ref.ref_hash(b"\x00not-this:" + data if i in wrong else data, name))
+        self.nodb = getattr(self, "nodb", 0) + 1
+        odb = ops.make_odb("local", os.path.join(self.dir, f"odb-verify-{self.nodb}"),
+                           state=self.state, hash_name=name)
+        errors = []
+        self.cnt["queries"] += 1
+        odb.add(list(srcs), self.fs, list(oids), verify=True,
+                on_error=lambda o, exc: errors.append(o))
+        self.state.hits = []
+        self.labels.add(f"q:odb.add(verify):{name}:bad={len(wrong)}")
+        self.nt.add("save_many-with-vanished-item")
+        for i, o in enumerate(oids):
+            cp = odb.oid_to_path(o)
+            if i in wrong:
+                if os.path.exists(cp):
+                    continue   # C07's concern, not judged here
+                self.r_get(cp, False)
+            elif os.path.isfile(cp):
+                self.r_get(cp, False)
+                self.r_hash_file(cp, name, False)
+                self.r_get_many([odb.oid_to_path(x) for x in oids], "none")
 
     @rule(algo=algo_s, jobs=st.integers(2, 8), threshold=st.integers(0, 8), rot=st.integers(0, 4),
           slow=st.sampled_from([0, 0, 0, 1, 2]), stir=st.sampled_from([True, True, True, False]),
